@@ -122,8 +122,9 @@ ASSUMED = [
              returns=EVAL_CTX_ABSTRACT, klass='PROVED-ELSEWHERE',
              notes='the evaluator it returns raises only the three errors eval_func is proved to raise (contract above)'),
     Contract(EVAL_RANGE, 'C09', params=dict(self=Const(None), address=Str()), returns=Union(NoneT(), Int()),
-             raises={e: None for e in PYCEL_ERRORS}, klass='BOUNDED',
-             notes='used by _process_gen_graph through its exceptional exits only'),
+             raises={e: None for e in PYCEL_ERRORS}, klass='PROVED-ELSEWHERE',
+             notes='used by _process_gen_graph through its exceptional exits only (that only these three errors leave an '
+                   'evaluation: eval_func, below; what a failed range evaluation leaves behind: _evaluate_range[plain, may fail])'),
 ]
 
 CONTRACTS = [
@@ -177,6 +178,66 @@ CONTRACTS = [
              notes='may raise only pycel\'s own errors; every exit leaves the shared error-message list and the '
                    'array-context stack as on entry'),
 ]
+# -- plain mode: _evaluate / _evaluate_range when the compiled formula (or a nested evaluation) fails ----------------
+#
+# Heap mode, the vocabulary and preconditions of C01.  The compiled formula is abstract: it evaluates precedents
+# (frames of C01) and then either returns F(cell, values) or raises one of the three errors eval_func lets out
+# (proved above).  Exceptional postcondition = "the model is not corrupted": no cached value changed, the invariant
+# Local still holds (every cached computed node has cached precedents and holds F of them - so what IS cached is still
+# the from-scratch value), and the node whose evaluation failed is not cached: a retry evaluates it again and cannot
+# answer a value while the failure persists.
+
+from contracts.c01 import (EV_FRAME, EVALUATE, EVALUATE_RANGE, ev_computed_cell_is_cached_and_is_f,  # noqa: E402
+                           ev_keeps_cached_values, ev_keeps_local_i, ev_keeps_local_ii, ev_no_dependant_newly_cached,
+                           ev_returns_the_cell_value, er_keeps_cached_values, er_keeps_local_i, er_keeps_local_ii,
+                           er_range_is_cached_and_is_f, er_returns_the_range_value, mem_done_are_cached_or_blank_constants,
+                           mem_keeps_cached_values, mem_keeps_local_i, mem_keeps_local_ii, mem_range_still_uncached,
+                           local_precedents_cached, local_values_are_f, pre_evaluate, pre_evaluate_range)
+from pyvc.heapspec import cached, cell_at, forall_nodes, old_cached, reads, same_value  # noqa: E402
+from pyvc.spec import HeapCompiler, OpaqueV  # noqa: E402
+
+
+def failed_evaluation_leaves_the_model_intact(self, address):
+    c = cell_at(address)
+    return (forall_nodes(lambda m: implies(old_cached(m), same_value(m))) and local_precedents_cached()
+            and local_values_are_f() and implies(not old_cached(c), not cached(c))
+            # none of the nodes that read the failed one was computed on the way (they need its value first)
+            and forall_nodes(lambda d: implies(reads(c, d) and cached(d), old_cached(d))))
+
+
+X_RAISES = {e: failed_evaluation_leaves_the_model_intact for e in PYCEL_ERRORS}
+
+EVALUATE_X = Contract(EVALUATE, 'C09', heap=True, params=dict(self=HeapCompiler(cycles=False), address=Str()),
+                      requires=[pre_evaluate],
+                      ensures=[ev_returns_the_cell_value, ev_keeps_cached_values, ev_keeps_local_i, ev_keeps_local_ii,
+                               ev_computed_cell_is_cached_and_is_f, ev_no_dependant_newly_cached],
+                      raises=X_RAISES, returns=OpaqueV(allow_none=True), modifies=('value',),
+                      name='ExcelCompiler._evaluate[contract with exceptional exits]')
+
+EVALUATE_RANGE_X = Contract(
+    EVALUATE_RANGE, 'C09', heap=True, modular=[EVALUATE_X], modifies=('value',),
+    name='ExcelCompiler._evaluate_range[plain, may fail]',
+    params=dict(self=HeapCompiler(cycles=False, evaluating=EV_FRAME, eval_raises=PYCEL_ERRORS), address=Str()),
+    requires=[pre_evaluate_range],
+    ensures=[er_returns_the_range_value, er_keeps_cached_values, er_keeps_local_i, er_keeps_local_ii,
+             er_range_is_cached_and_is_f, ev_no_dependant_newly_cached],
+    raises=X_RAISES, returns=OpaqueV(),
+    invariants={'members': [mem_keeps_cached_values, mem_keeps_local_i, mem_keeps_local_ii,
+                            mem_done_are_cached_or_blank_constants, mem_range_still_uncached]},
+    notes='a member (or the array formula) may fail: the range is left un-cached, what was cached is untouched')
+
+CONTRACTS.append(EVALUATE_RANGE_X)
+CONTRACTS.append(
+    Contract(EVALUATE, 'C09', heap=True, modular=[EVALUATE_RANGE_X], modifies=('value',),
+             name='ExcelCompiler._evaluate[plain, may fail]',
+             params=dict(self=HeapCompiler(cycles=False, evaluating=EV_FRAME, eval_raises=PYCEL_ERRORS), address=Str()),
+             requires=[pre_evaluate],
+             ensures=[ev_returns_the_cell_value, ev_keeps_cached_values, ev_keeps_local_i, ev_keeps_local_ii,
+                      ev_computed_cell_is_cached_and_is_f, ev_no_dependant_newly_cached],
+             raises=X_RAISES,
+             notes='the compiled formula may raise UnknownFunction / FormulaEvalError / RecursionError after any number of '
+                   'nested evaluations: nothing is cached for the cell, nothing cached is changed, Local holds'))
+
 LEMMAS = []
 
 
@@ -369,7 +430,11 @@ EXPLANATION = ('Mixed. PROVED by SMT (record mode, exceptional postconditions - 
                'enclosing evaluations) raises only UnknownFunction / FormulaEvalError / RecursionError and on every exit leaves the '
                'error-message list and the array-context stack as on entry; _ArrayFormulaContext.__enter__/__exit__ push/pop also when '
                'the block raised; iterative _eval: on an exception the cell is not left work-in-progress and nothing is cached for it; '
-               '_process_gen_graph empties range_todos on every exit. BOUNDED (native): every formula cell of the grammar workbooks '
+               '_process_gen_graph empties range_todos on every exit; plain mode (heap mode, vocabulary and preconditions of C01): when the '
+               'compiled formula of a cell, the array formula of a range, a member of a range or any nested evaluation raises one '
+               'of those three errors, _evaluate / _evaluate_range (mutually modular) leave every cached value as it was, the '
+               'invariant Local intact, the failed node un-cached (a retry evaluates it again) and compute no node that reads '
+               'it. BOUNDED (native): every formula cell of the grammar workbooks '
                'and two circular systems made to fail in turn (unknown function, plugin raising ValueError / NameError while armed, '
                'plugin raising on its k-th call; with handled operand errors before / around the failure), plain and iterative: '
                'retries raise pycel errors, unrelated cells keep their from-scratch values, set_value(constant) repairs.')
@@ -381,8 +446,6 @@ ASSUMPTIONS = ['A-EVAL', 'A-TRACEBACK: sys.exc_info / traceback.extract_tb / for
                'eval_func is verified for cse_array_address None (fit_to_range in array context: C13) and an already loaded '
                'compiled_lambda (load_function: bounded)']
 BOUNDED_FUNCTIONS = [
-    Contract('pycel.excelcompiler:ExcelCompiler._evaluate', 'C09', params={}, klass='BOUNDED',
-             notes='plain mode: nothing cached for a node whose evaluation raised (value assigned after eval returns)'),
     Contract('pycel.excelformula:ExcelFormula.build_eval_context.load_function', 'C09', params={}, klass='BOUNDED',
              notes='exec of generated code'),
 ]
